@@ -333,12 +333,24 @@ def evaluate(chk, v, suffixes):
                         ok="barb = switch(x->b, 2N); bara[i] = switch(x->a[i], 2N), i in [0,n); n rotations requested",
                         bad="; ".join(problems), variant=vn)
             tv = [p for p in stores if p["loops"] and p["val"] == sym.sym(mu)]
+            # single elements completing the fill (a remainder store after a loop over both halves)
+            tv += [p for p in stores if tv and not p["loops"] and p["val"] == sym.sym(mu) and p["lv"][0] == "idx" and p["lv"][1] == tv[0]["lv"][1]]
             from sa import coverage
-            ok6 = bool(tv) and all(len(p["loops"]) == 1 and p["lv"][0] == "idx" and p["lv"][1] == tv[0]["lv"][1] and p["guards"] == tv[0]["guards"] for p in tv) \
+            common = [g_ for g_ in (tv[0]["guards"] if tv else []) if all(g_ in p["guards"] for p in tv)]
+            ok6 = bool(tv) and all(len(p["loops"]) <= 1 and p["lv"][0] == "idx" and p["lv"][1] == tv[0]["lv"][1] for p in tv) \
                 and sym.show(a[1]) in sym.show(tv[0]["lv"][1])
             why6 = "statements: %s" % [summ.show_piece(p)[:100] for p in tv]
             if ok6:
-                st6, det6 = coverage.cover_1d([(p["loops"][0], p["lv"][2], 1) for p in tv], N)
+                terms6 = []
+                for p in tv:
+                    own = [g_ for g_ in p["guards"] if g_ not in common]
+                    if p["loops"]:
+                        terms6.append((p["loops"][0], p["lv"][2], 1, own))
+                    else:
+                        u6 = sym.sym("u@%s" % p["line"])
+                        terms6.append(({"var": u6, "lo": p["lv"][2], "cmp": "<", "hi": sym.add(p["lv"][2], I(1)), "step": I(1), "l": p["line"]}, u6, 1, own))
+                tv = [dict(p, guards=common) for p in tv]
+                st6, det6 = coverage.cover_1d(terms6, N)
                 if st6 == "unknown":
                     chk.broken("%s: test vector fill: %s" % (f.name, det6))
                 if st6 == "refuted":
